@@ -6,10 +6,11 @@ package main
 // Parse (and String) every message body, as the README recommends.
 
 import (
+	"bytes"
 	"fmt"
 	"math/rand"
 	"net"
-	"syscall"
+	"sync/atomic"
 	"time"
 
 	"github.com/cuteLittleDevil/go-jt808/protocol/jt808"
@@ -190,7 +191,7 @@ func hostileCatalogue(r *rand.Rand, base []byte) []hostile {
 		loc = append(loc, fr(hdrSpec{id: 0x0200, serial: 40 + len(loc), body: append(append([]byte{}, blk...), item...)}))
 	}
 	add("location-additional-items-impossible-lengths", "close", loc...)
-	add("never-reads-while-commands-are-queued", "noread", hb)
+	add("never-reads-while-commands-are-queued", "noread", fr(hdrSpec{id: 0x0002, serial: 1})) // joins under its own key: the commands below are addressed to it
 	return hs
 }
 
@@ -261,14 +262,8 @@ func init() {
 		hphone := []byte{0x01, 0x33, 0x00, 0x00, 0x00, 0x01}
 		var hung []*term
 		for _, h := range hostileCatalogue(r, hphone) {
-			t := l.dial(h.phone, 0)
+			t := l.dialWith(h.phone, 0, h.how == "noread") // noread: a tiny receive window and no reads - the server's writes to it stall
 			l.rec.log(t.idx, "D", "hostile", "name", h.name)
-			if h.how == "noread" {
-				// a tiny receive window and no reads: the server's writes to it stall
-				if raw, err := t.conn.SyscallConn(); err == nil {
-					raw.Control(func(fd uintptr) { syscall.SetsockoptInt(int(fd), syscall.SOL_SOCKET, syscall.SO_RCVBUF, 2048) })
-				}
-			}
 			for _, s := range h.sends {
 				if err := t.send(s); err != nil {
 					break
@@ -284,21 +279,47 @@ func init() {
 			case "hang":
 				hung = append(hung, t)
 			case "noread":
-				// it joined with its heartbeat; now flood commands at it from several callers
+				// it joined with its heartbeat; it keeps sending heartbeats without ever reading the replies, until the
+				// server's writer for this connection is stuck in Write (our own writes stall once every buffer is full)
+				var progress atomic.Int64
+				l.muted.Store(t.idx, &progress)
+				batch := bytes.Repeat(t.frame(0x0002, nil), 200)
+				stalled := "no"
+				nb := 0
+				quiet := func() { // wait until the server has made no progress on this connection for 300 ms
+					for last, since := progress.Load(), time.Now(); time.Since(since) < 300*time.Millisecond; time.Sleep(20 * time.Millisecond) {
+						if now := progress.Load(); now != last {
+							last, since = now, time.Now()
+						}
+					}
+				}
+				for ; nb < 2000 && stalled == "no"; nb++ {
+					t.conn.SetWriteDeadline(time.Now().Add(300 * time.Millisecond))
+					if _, err := t.conn.Write(batch); err != nil {
+						quiet()
+						stalled = "yes: the terminal's own writes time out and the server makes no progress"
+					}
+				}
+				l.rec.log(t.idx, "D", "flood", "batches", nb, "stalled", stalled)
+				t.conn.SetWriteDeadline(time.Time{})
+				// now commands are sent to it from several callers, with time-outs longer than any probe is willing to wait:
+				// they may fail or time out, but nobody else may notice
 				key := string(asciiDigits(h.phone))
 				done := make(chan struct{}, 16)
 				for i := 0; i < 8; i++ {
 					kid++
 					go func(k int) {
-						l.sendActive(t.idx, k, key, consts.P8103SetTerminalParams, randBytes(r, 900), 500*time.Millisecond)
+						l.sendActive(t.idx, k, key, consts.P8103SetTerminalParams, randBytes(r, 900), 2500*time.Millisecond)
 						done <- struct{}{}
 					}(kid)
 				}
+				time.Sleep(50 * time.Millisecond)
+				probe(h.name + " (commands pending)")
 				for i := 0; i < 8; i++ {
 					select {
 					case <-done:
-					case <-time.After(5 * time.Second):
-						l.rec.log(t.idx, "K", "cmd_stranded", "k", -1, "tmo", 500)
+					case <-time.After(9 * time.Second):
+						l.rec.log(t.idx, "K", "cmd_stranded", "k", -1, "tmo", 2500)
 					}
 				}
 				hung = append(hung, t)
